@@ -517,7 +517,11 @@ impl Engine for PermRules {
                 out.label("record-updated-or-deleted");
             }
         }
-        out.count(&format!("global:{}", spec.global), 1);
+        for b in 0..10 {
+            if spec.global & (1 << b) != 0 {
+                out.count(&format!("global-flag-{b}-set"), 1);
+            }
+        }
         out
     }
     fn rule(&self, _p: &Params) -> String {
